@@ -129,7 +129,18 @@ class DictInterp:
             raise Unsupported(ast.unparse(e)[:60])
         if isinstance(e, ast.IfExp):
             return self.ev(e.body) if self.truth(e.test) else self.ev(e.orelse)
-        if isinstance(e, (ast.Compare, ast.BoolOp)) or (isinstance(e, ast.UnaryOp) and isinstance(e.op, ast.Not)):
+        if isinstance(e, ast.BoolOp):
+            # value semantics: `a or b` is a if a is truthy else b; `a and b` is a if a is falsy else b
+            v = None
+            for k, sub in enumerate(e.values):
+                v = self.ev(sub)
+                if k == len(e.values) - 1:
+                    return v
+                t = self._truth_of_value(v)
+                if (isinstance(e.op, ast.Or) and t) or (isinstance(e.op, ast.And) and not t):
+                    return v
+            return v
+        if isinstance(e, ast.Compare) or (isinstance(e, ast.UnaryOp) and isinstance(e.op, ast.Not)):
             return self.truth(e)
         if isinstance(e, ast.Slice):
             b_ = [self.ev(x) if x is not None else None for x in (e.lower, e.upper, e.step)]
@@ -350,7 +361,9 @@ class DictInterp:
             if isinstance(l, int) and isinstance(r, int):
                 return {ast.Lt: l < r, ast.LtE: l <= r, ast.Gt: l > r, ast.GtE: l >= r}[type(op)]
             raise Unsupported(ast.unparse(e))
-        v = self.ev(e)
+        return self._truth_of_value(self.ev(e))
+
+    def _truth_of_value(self, v) -> bool:
         if isinstance(v, ADict):
             return bool(v.data)
         if isinstance(v, (CallableToken, OtherToken, Tok)):
